@@ -173,6 +173,16 @@ ClaimsPropTags(pre, cc, e) ==
                       THEN {KnownOr("F-C32-reclaim", "C32")} ELSE {"C32"}
             ELSE {})
 
+MsgAuthorized(pre, tx) ==
+    CASE tx.kind = "node_stake" ->
+           IF tx.node \in DOMAIN pre.val THEN N!MsgSignerOK(pre.val[tx.node].output, tx.node, tx.signer)
+           ELSE N!MsgSignerOK(tx.output, tx.node, tx.signer)
+      [] tx.kind \in {"node_unstake", "node_unjail"} ->
+           tx.node \in DOMAIN pre.val => N!MsgSignerOK(pre.val[tx.node].output, tx.node, tx.signer)
+      [] tx.kind = "send" -> tx.signer = tx.from
+      [] tx.kind \in {"claim", "proof"} -> tx.signer = tx.node
+      [] OTHER -> TRUE      \* application kinds: ChainApps (transfer rules); governance kinds: C36
+
 DeliverTagsD(pre, c, e, post, newC, r, cc, d) ==
     LET tx  == e.tx
         h   == e.h
@@ -191,6 +201,9 @@ DeliverTagsD(pre, c, e, post, newC, r, cc, d) ==
             \cup (IF d \cap {"tmSet", "prevPower", "prevTotal"} # {} THEN {"C22"} ELSE {})
             \cup CommonTags(d, r.s, post)
             \* ---- the properties' own statements
+            \* C14 at the message level: a transaction that took effect was signed by a key the PRE-state names
+            \* as a signer of that message (the ante handler only checks the signers the message declares)
+            \cup (IF ok /\ ~MsgAuthorized(pre, tx) THEN {"C14"} ELSE {})
             \cup (IF tx.kind = "node_stake" THEN IfNot(N!Step_C23(pre, post, cc, tx, h), "C23") ELSE {})
             \cup IfNot(N!Step_C24_Leave(pre, post, cc, h, FALSE) /\ N!Step_C24_NoEarly(pre, post), "C24")
             \cup (IF UnjailMismatch(pre, cc, e)
